@@ -4,6 +4,7 @@ discrete exact), evaluated flags, tape consumption.  Oracle from the statement: 
 parents untouched, evaluated discipline, symmetry of two-parent crossovers."""
 import copy
 import itertools
+from fractions import Fraction
 import math
 
 import tracer
@@ -326,13 +327,146 @@ def run_case(ctx, ask, rng, kind, op, ts, p, parents, note=""):
     ctx.case((expr, tuple(inp["parents"]), inp["tape"]), changed, dict(inp, offspring=impl_out[:300]) if len(ctx.samples) < 4 and changed else None)
 
 
+# --------------------------------------------------------------------------- Multimethod (adaptive operator selection)
+
+class MMAlg:
+    """the algorithm a Multimethod looks at: an archive and / or a recency list whose members may carry an operator tag"""
+
+
+def mm_counts(alg, n):
+    counts = [1] * n
+    for attr in ("archive", "recency_list"):
+        for s in getattr(alg, attr, []):
+            if hasattr(s, "operator"):
+                counts[s.operator] += 1
+    return counts
+
+
+def mm_state(mm):
+    return f"{mm.next_variator} {mm.last_update} {len(mm.probabilities)} " + " ".join(fw(x) for x in mm.probabilities)
+
+
+def run_multimethod(ctx, ask, rng, nhist):
+    """histories of Multimethod.evolve calls: each call is compared with the model's step from the state before it; the oracle
+    checks offspring validity, the tag, the state invariants (index in range, probabilities a distribution over the variators,
+    arity that of the selected variator) and that parents are untouched"""
+    ncalls = 0
+    for h in range(nhist):
+        kind = rng.choice(["real", "real", "binary", "perm", "subset"])
+        ts = make_types(rng, kind, rng.randrange(1, 4))
+        p = build_problem(ts)
+        nv = rng.randrange(1, 5)
+        vs = []
+        while len(vs) < nv:
+            v = zoo(rng, kind)
+            if (type(v).__name__ == "CompoundOperator" and any(type(x).__name__ == "DifferentialEvolution" for x in v.variators)):
+                continue
+            vs.append(v)
+        alg = MMAlg()
+        members = []
+        if rng.random() < 0.8:
+            alg.archive = members_a = []
+        else:
+            members_a = None
+        if rng.random() < 0.5:
+            alg.recency_list = members_r = []
+        else:
+            members_r = None
+        freq = rng.choice([1, 1, 2, 3, 5, 100])
+        sr = ScriptedRandom(rng.randrange(2 ** 31), extreme=rng.choice([0.0, 0.3, 0.6]))
+        with tracer.patched_random(sr):
+            mm = call_guarded(lambda: O.Multimethod(alg, vs, freq))
+        inp0 = {"variators": [op_expr(v) for v in vs], "update_frequency": freq, "tape": sr.tape_wire()}
+        if isinstance(mm, str):
+            ctx.fail("operator-raises", inp0, mm, "a Multimethod", "operators.Multimethod.__init__")
+            continue
+        ask(f"mminit {nv} {freq} {nv} " + " ".join("1" for _ in range(nv)) + " " + sr.tape_wire(),
+            lambda g, exp="ok 0 " + mm_state(mm), inp0=inp0: None if g == exp else ctx.disagree("Multimethod.__init__ model vs implementation (selected index / counter / probabilities / tape)", inp0, exp, g))
+        for step in range(rng.randrange(2, 9)):
+            # what the surrounding algorithm does between calls: survivors enter / leave its archive and recency list
+            for lst in (members_a, members_r):
+                if lst is None:
+                    continue
+                for _ in range(rng.randrange(0, 3)):
+                    if members and rng.random() < 0.8:
+                        lst.append(rng.choice(members))
+                    elif lst:
+                        lst.pop(rng.randrange(len(lst)))
+                if rng.random() < 0.2:
+                    u = C.Solution(p)          # an untagged member (e.g. from the initial population)
+                    lst.append(u)
+            v = vs[mm.next_variator] if 0 <= mm.next_variator < nv else None
+            arity = mm.arity
+            parents = make_parents(rng, p, ts, arity, rng.choice([None, None, "identical"]))
+            before = snapshot(parents)
+            state_w = mm_state(mm)
+            nx0 = mm.next_variator
+            counts = mm_counts(alg, nv)
+            sr = ScriptedRandom(rng.randrange(2 ** 31), extreme=rng.choice([0.0, 0.3, 0.6]))
+            with tracer.patched_random(sr):
+                kids = call_guarded(mm.evolve, list(parents))
+            inp = {"variators": [op_expr(x) for x in vs], "update_frequency": freq, "state_before": state_w, "counts": counts,
+                   "types": [list(t) for t in ts], "parents": [show_sol(ts, s) for s in parents], "tape": sr.tape_wire()[:600], "call": step}
+            where = "operators.Multimethod"
+            ncalls += 1
+            if isinstance(kids, str):
+                expected_refusal = False
+                ctx.fail("operator-raises", inp, kids, "offspring", where)
+                ctx.failures[-1]["input_class"] = f"Multimethod:{kids}"
+                impl_out = kids
+            else:
+                if snapshot(parents) != before:
+                    ctx.fail("parent-modified", inp, "parents differ after the call", "parents unchanged", where)
+                bad = None
+                for c in kids:
+                    for i, t in enumerate(ts):
+                        if not valid_var(t, p.types[i], c.variables[i]):
+                            bad = (i, repr(c.variables[i])[:120])
+                    if getattr(c, "operator", None) != nx0:
+                        ctx.fail("offspring-tag-not-the-applied-variator", inp, getattr(c, "operator", None), nx0, where)
+                        break
+                if bad:
+                    ctx.fail("invalid-offspring", dict(inp, variable=bad[0]), bad[1], f"valid {ts[bad[0]]}", where)
+                pr = list(mm.probabilities)
+                if not (0 <= mm.next_variator < nv) or type(mm.next_variator) is not int:
+                    ctx.fail("selected-variator-out-of-range", inp, mm.next_variator, f"0..{nv - 1}", where)
+                elif mm.arity != vs[mm.next_variator].arity:
+                    ctx.fail("arity-not-that-of-the-selected-variator", inp, mm.arity, vs[mm.next_variator].arity, where)
+                if len(pr) != nv or any(not (0.0 < x <= 1.0) for x in pr) or abs(sum(pr) - 1.0) > 1e-9:
+                    ctx.fail("probabilities-not-a-distribution", inp, pr, "positive, summing to 1, one per variator", where)
+                elif mm.last_update == 0:
+                    want = [Fraction(c, sum(counts)) for c in counts]
+                    if any(abs(Fraction(x) - w) > Fraction(1, 10 ** 12) for x, w in zip(pr, want)):
+                        ctx.fail("probabilities-not-proportional-to-surviving-offspring", inp, pr, [float(w) for w in want], where)
+                if not (0 <= mm.last_update < max(freq, 1)):
+                    ctx.fail("update-counter-out-of-range", inp, mm.last_update, f"0..{freq - 1}", where)
+                members.extend(kids)
+                impl_out = f"ok 0 {nx0} {mm.arity} {mm_state(mm)} | " + " ".join(show_sol(ts, c) for c in kids)
+            line = (f"mm {types_wire(p, ts)} {nv} " + " ".join(op_expr(x) for x in vs) + f" {state_w.split(' ', 2)[0]} {state_w.split(' ', 2)[1]} {freq} "
+                    + state_w.split(" ", 2)[2] + f" {nv} " + " ".join(str(c) for c in counts) + f" {len(parents)} " + " ".join(sol_wire(ts, s) for s in parents) + " " + sr.tape_wire())
+
+            def cmp(g, impl_out=impl_out, inp=inp):
+                if impl_out.startswith("err"):
+                    if not g.startswith("err") or (g != impl_out and not {g, impl_out} <= {"err:domain", "err:TypeError", "err:OverflowError"}):
+                        ctx.disagree("Multimethod model vs implementation (error kind)", inp, impl_out, g)
+                elif g != impl_out:
+                    ctx.disagree("Multimethod model vs implementation (offspring / tag / next state / tape)", inp, impl_out, g[:600])
+            ask(line, cmp)
+            ctx.count("op_Multimethod")
+            changed = isinstance(kids, list) and any(list(c.variables) not in [list(s.variables) for s in parents] for c in kids)
+            ctx.case(("mm", line), changed and nv >= 2, None)
+            if isinstance(kids, str):
+                break
+    ctx.count("multimethod_calls", ncalls)
+
+
 def run(ctx, drv):
     rng = ctx.rng
     ctx.nontrivial_rule = ("operator calls: every shipped operator and combinator x applicable variable types x 1-3 variables; parents valid "
                            "(on the bounds, identical, last parent at the centroid, widths 1e-9..1e6); scripted random stream with 0-30% "
                            "extreme outcomes (end points of uniform incl. the upper end, first/last index, +-8 sigma); exhaustive: all "
                            "permutations of <= 4 elements x all position pairs for Swap/Insertion/PMX, all subsets for SSX/Replace of "
-                           "<= 5 elements. non-trivial = some offspring differs from every parent; distinct by (operator, parents, tape) + mixed-type problems for every type-aware operator and the documented compound recipes; clip against the model including NaN and infinities")
+                           "<= 5 elements. non-trivial = some offspring differs from every parent; distinct by (operator, parents, tape) + mixed-type problems for every type-aware operator and the documented compound recipes; clip against the model including NaN and infinities; Multimethod: histories of evolve calls over 1-4 variators with a changing archive / recency list, every call against the model's step")
     reqs, post = [], []
 
     def ask(line, fn):
@@ -378,6 +512,8 @@ def run(ctx, drv):
         parents = make_parents(rng, p, ts, arity, rng.choice([None, None, "identical"]))
         run_case(ctx, ask, rng, kind, op, ts, p, parents, note="mixed-types")
     ctx.count("mixed_type_cases", n // 4)
+    # ---- Multimethod: histories of adaptive selection
+    run_multimethod(ctx, ask, rng, 150 if ctx.quick() else 3000)
     # ---- exhaustive discrete sub-domains (stream enumerated through the scripted tape with extreme rate 0.3)
     nex = 0
     for nperm in (1, 2, 3, 4):
